@@ -67,6 +67,13 @@ class TaskError(ValueError):
     pass
 
 
+class FalsyError(ValueError):
+    """an exception object whose truth value is False (it has a length, and it is 0)"""
+
+    def __len__(self):
+        return 0
+
+
 class UnpicklableError(Exception):
     def __reduce__(self):
         raise pickle.PicklingError("simulated: exception cannot be pickled")
@@ -99,6 +106,8 @@ def task(i, spec, arg=None):
     if body == "raise":
         if spec.get("exc") == "unpicklable":
             raise UnpicklableError(i)
+        if spec.get("exc") == "falsy":
+            raise FalsyError(i)
         raise TaskError(i)
     if body == "sysexit":
         raise SystemExit(3)
